@@ -27,6 +27,23 @@ type c15Cfg struct {
 	ClockF string // field of CacheT holding the clock (interface with Now())
 	ExpF   string // field of EntryT holding the absolute expiry
 	MaxF   string // field of CacheT holding the TTL cap ("" = none)
+	// Holders: the struct types whose fields are the cache's state: CacheT and
+	// the struct types nested in it. ClockF / MaxF (and the role names of the
+	// property file) are holder keys, see hkey. nil = {CacheT}.
+	Holders map[string]bool
+	OptsT   string // the options struct type ("" = none); its MaxTTL field is the cap too
+	// NowFuncs: func() time.Time fields of a holder whose only store binds the
+	// Now method of a clock-typed value (true) or time.Now (false = wall clock).
+	NowFuncs map[string]bool
+}
+
+// hkey names a field of the cache's state: "Cache.clock", "timing.maxTTL", …
+// ("" if id is not a field of a holder type).
+func (c c15Cfg) hkey(id FieldID) string {
+	if id.Type != c.CacheT && !c.Holders[id.Type] {
+		return ""
+	}
+	return id.String()
 }
 
 type c15X struct {
@@ -140,6 +157,38 @@ func (x *c15X) funcValues(v ssa.Value, env *c15Env, depth int) (out []c15Target,
 		}
 		cell := c15CellOf(t)
 		if cell == nil {
+			// an element of a small literal slice / array of funcs: any of its elements
+			if ia, ok := t.X.(*ssa.IndexAddr); ok {
+				base := ia.X
+				if sl, isSl := base.(*ssa.Slice); isSl {
+					base = sl.X
+				}
+				if arr, isA := base.(*ssa.Alloc); isA {
+					n := 0
+					for _, r := range refs(arr) {
+						if ea, isEA := r.(*ssa.IndexAddr); isEA {
+							for _, rr := range refs(ea) {
+								if st, isSt := rr.(*ssa.Store); isSt && st.Addr == ea {
+									o, u := x.funcValues(st.Val, senv, depth+1)
+									out = append(out, o...)
+									unknown = unknown || u
+									n++
+								}
+							}
+						}
+					}
+					if n > 0 {
+						return out, unknown
+					}
+				}
+				return nil, true
+			}
+			// a func-typed field written exactly once in the program
+			if fa, ok := t.X.(*ssa.FieldAddr); ok {
+				if sts := x.fieldStores(fieldIDOfAddr(fa)); len(sts) == 1 {
+					return x.funcValues(sts[0].Val, nil, depth+1)
+				}
+			}
 			return nil, true
 		}
 		cenv := senv
@@ -581,7 +630,7 @@ func (x *c15X) fieldStores(id FieldID) []*ssa.Store {
 // program, into that very object: returns the stored value.
 func (x *c15X) localObjectField(fa *ssa.FieldAddr, env *c15Env) (ssa.Value, *c15Env, bool) {
 	id := fieldIDOfAddr(fa)
-	if id.Type == "" || id.Type == x.cfg.CacheT || id.Type == x.cfg.EntryT {
+	if id.Type == "" || x.cfg.hkey(id) != "" || id.Type == x.cfg.EntryT {
 		return nil, nil, false
 	}
 	bx, benv := x.strip(fa.X, env)
@@ -644,6 +693,17 @@ func (x *c15X) nowKind(v ssa.Value, env *c15Env) c15Kind {
 	if callIs(call, "time", "", "Now") {
 		return c15WallNow
 	}
+	if !call.Call.IsInvoke() && len(x.cfg.NowFuncs) > 0 {
+		// a call of a func-typed state field bound once to <clock>.Now / time.Now
+		if _, _, id, ok := x.fieldRead(call.Call.Value, env); ok {
+			if isClock, known := x.cfg.NowFuncs[x.cfg.hkey(id)]; known {
+				if isClock {
+					return c15Now
+				}
+				return c15WallNow
+			}
+		}
+	}
 	obj := calleeObj(call)
 	if obj == nil || obj.Name() != "Now" {
 		return c15Other
@@ -657,7 +717,7 @@ func (x *c15X) nowKind(v ssa.Value, env *c15Env) c15Kind {
 	if recv == nil {
 		return c15Other
 	}
-	if _, _, id, ok := x.fieldRead(recv, env); ok && id.Type == x.cfg.CacheT && id.Field == x.cfg.ClockF {
+	if _, _, id, ok := x.fieldRead(recv, env); ok && x.cfg.hkey(id) == x.cfg.ClockF {
 		return c15Now
 	}
 	return c15Other
@@ -710,7 +770,7 @@ func (x *c15X) termD(v ssa.Value, env *c15Env, depth int) c15Term {
 		switch {
 		case id.Type == x.cfg.EntryT && id.Field == x.cfg.ExpF:
 			return c15Term{Key: key, Kind: c15Exp, V: sv, Entry: base}
-		case x.cfg.MaxF != "" && id.Type == x.cfg.CacheT && id.Field == x.cfg.MaxF:
+		case (x.cfg.MaxF != "" && x.cfg.hkey(id) == x.cfg.MaxF) || (x.cfg.OptsT != "" && id.Type == x.cfg.OptsT && id.Field == "MaxTTL"):
 			// one cache per method: keyed by field only (the field is written
 			// only by the constructor, checked separately)
 			return c15Term{Key: "maxTTL", Kind: c15MaxTTL, V: sv}
@@ -881,6 +941,15 @@ func (c *c15Ctx) factsWhen(v ssa.Value, want bool, env *c15Env, depth int) (fact
 	case *ssa.UnOp:
 		if t.Op == token.NOT {
 			return c.factsWhen(t.X, !want, senv, depth+1)
+		}
+		if fa, ok := t.X.(*ssa.FieldAddr); ok && t.Op == token.MUL {
+			// a boolean state field (flag) decided once: what was stored
+			if id := fieldIDOfAddr(fa); x.cfg.hkey(id) != "" {
+				if sts := x.fieldStores(id); len(sts) == 1 {
+					return c.factsWhen(sts[0].Val, want, nil, depth+1)
+				}
+				c.Opaque = append(c.Opaque, "flag "+id.String())
+			}
 		}
 		return
 	case *ssa.BinOp:
@@ -1167,7 +1236,7 @@ func (x *c15X) sinceCall(call *ssa.Call, env *c15Env) (now c15Term, arg ssa.Valu
 	if recv == nil || len(args) != 1 {
 		return
 	}
-	if _, _, id, isF := x.fieldRead(recv, env); isF && id.Type == x.cfg.CacheT && id.Field == x.cfg.ClockF {
+	if _, _, id, isF := x.fieldRead(recv, env); isF && x.cfg.hkey(id) == x.cfg.ClockF {
 		return c15Term{Key: fmt.Sprintf("now:%p", call), Kind: c15Now, V: call}, args[0], true
 	}
 	return
@@ -1583,9 +1652,11 @@ func (x *c15X) must(fn *ssa.Function, env *c15Env, ev func(in ssa.Instruction, e
 		if len(ts) == 0 {
 			return false
 		}
+		pass, fail := 0, 0
 		for _, tg := range ts {
 			if !x.inlinable(tg.Fn) {
-				return false
+				fail++
+				continue
 			}
 			if x.onStack(env, tg.Fn) || tg.Fn == fn {
 				x.mustUnsure = true
@@ -1593,10 +1664,15 @@ func (x *c15X) must(fn *ssa.Function, env *c15Env, ev func(in ssa.Instruction, e
 			}
 			o, n, _ := x.must(tg.Fn, x.activate(tg, ci.Common().Args, env, in, "call"), ev, depth+1)
 			if !o || n == 0 {
-				return false
+				fail++
+			} else {
+				pass++
 			}
 		}
-		return true
+		if pass > 0 && fail > 0 {
+			x.mustUnsure = true // several possible callees (e.g. a loop over a slice of steps): which one runs is not modelled
+		}
+		return fail == 0 && pass > 0
 	}
 	var ff *FlagFlow
 	ff = &FlagFlow{Fn: fn, Must: true, Transfer: func(in ssa.Instruction, st uint64) uint64 {
